@@ -22,6 +22,7 @@ var c03Actions = []string{
 	"C.InsertOne", "C.UpdateMany($inc n)", "C.DeleteMany({n:{$gte:2}})", "C.CreateIndex({n:1})", "C.DropAllIndexes", "C.DropCollection", "env.NextStoreFails",
 	// statements that change nothing: they must not make the transaction forget what it already changed
 	"A.DeleteMany({n:{$lt:0}}) matching nothing", "A.BulkWrite(update and delete of a missing _id)",
+	"C.DropIndexByKey({n:1})",
 }
 
 type c03Doc struct{ id, n int32 }
@@ -62,7 +63,7 @@ type c03Stats struct {
 func c03Render(ds []c03Doc) []string {
 	out := []string{}
 	for _, d := range ds {
-		out = append(out, fmt.Sprintf(`{"_id":{"$numberInt":"%d"},"n":{"$numberInt":"%d"},"g":[[{"$numberInt":"0"},{"$numberInt":"%d"}],[{"$numberInt":"0"}]],"s":{"t":[{"$numberInt":"%d"}]}}`, d.id, d.n, d.n, d.n))
+		out = append(out, fmt.Sprintf(`{"_id":{"$numberInt":"%d"},"n":{"$numberInt":"%d"},"g":[[{"$numberInt":"0"},{"$numberInt":"%d"}],[{"$numberInt":"0"}]],"s":{"t":[{"$numberInt":"%d"}]},"h":{"k":{"m":[{"$numberInt":"7"},{"$numberInt":"8"}]}}}`, d.id, d.n, d.n, d.n))
 	}
 	return out
 }
@@ -70,7 +71,7 @@ func c03Render(ds []c03Doc) []string {
 // c03NewDoc: the counter n is mirrored inside an array nested in an array and inside an array in a
 // sub-document, so that structure shared between document versions shows up as a changed snapshot.
 func c03NewDoc(id int32) bson.D {
-	return bD("_id", id, "n", int32(0), "g", bson.A{bson.A{int32(0), int32(0)}, bson.A{int32(0)}}, "s", bD("t", bson.A{int32(0)}))
+	return bD("_id", id, "n", int32(0), "g", bson.A{bson.A{int32(0), int32(0)}, bson.A{int32(0)}}, "s", bD("t", bson.A{int32(0)}), "h", bD("k", bD("m", bson.A{int32(7), int32(8)})))
 }
 
 func newC03Runner(c *Ctx, st *c03Stats) *c03Runner {
@@ -136,8 +137,15 @@ func (r *c03Runner) Step(a int) bool {
 	coll := w.C("d", "c")
 	name := c03Actions[a]
 	// writes of the plain client would block while A holds the writer slot: that interleaving belongs to C04/C16
-	if r.open && a >= 7 && a <= 12 {
+	if r.open && (a >= 7 && a <= 12 || a == 16) {
 		return false
+	}
+	if a == 16 {
+		// only where there is something to drop
+		ns := w.Engine.Catalog().Namespaces[lungo.Handle{"d", "c"}]
+		if ns == nil || ns.Indexes["n_1"] == nil {
+			return false
+		}
 	}
 	r.trace = append(r.trace, name)
 	apply := func(ds []c03Doc, op int) ([]c03Doc, bool) {
@@ -310,9 +318,34 @@ func (r *c03Runner) Step(a int) bool {
 	case 13:
 		w.Store.FailNext = 1
 		r.fail = true
+	case 16:
+		_, err := coll.Indexes().DropOneWithKey(w.Ctx, bD("n", int32(1)))
+		if (err != nil) != r.fail {
+			r.viol("dropindex-result", fmt.Sprintf("DropOneWithKey returned %v (store failing=%v)", err, r.fail))
+		}
+		if err != nil {
+			// the commit was rejected: the index is still there
+			if ns := w.Engine.Catalog().Namespaces[lungo.Handle{"d", "c"}]; ns == nil || ns.Indexes["n_1"] == nil {
+				r.viol("dropindex-after-failed-commit", "DropOneWithKey failed at the store but the index is gone")
+			}
+		}
+		r.fail = false
 	}
 	// keep the model's failure flag in line with the injected fault (index drops consume it only when dirty)
 	r.fail = w.Store.FailNext > 0
+	// reads with projections (overlays far below an included field, exclusions below arrays) by both clients: they
+	// return copies; whatever they do to them must not show in any later read or earlier snapshot
+	projs := []bson.D{bD("h", int32(1), "h.k.m", bD("$slice", int32(1))), bD("g.0", int32(0), "s.t", bD("$slice", int32(-1))), bD("_id", int32(0), "h.k", int32(0))}
+	for _, proj := range projs[len(r.trace)%3 : len(r.trace)%3+1] { // one of the three per step, in rotation
+		for _, cx := range []context.Context{w.Ctx, r.sctx} {
+			if cur, err := coll.Find(cx, bD(), options.Find().SetProjection(proj)); err == nil {
+				var docs []bson.D
+				_ = cur.All(cx, &docs)
+			} else {
+				r.viol("projected-read-fails", fmt.Sprintf("Find with projection %s failed: %v", J(proj), err))
+			}
+		}
+	}
 	// (a) visibility: the session sees its own writes, everybody else the committed state
 	wantC := c03Render(r.commit)
 	gotC, err := findAll(w.Ctx, coll)
